@@ -14,6 +14,19 @@ PROPS = {
         trusted_base=["DFKconvert is exercised but not modelled here (C06)", "non-HDF netCDF/CDF paths of the same functions are out of scope"],
         assumptions=["fixed-size variables in the placement tie (record variables are covered by the implementation oracle only)"],
     ),
+    "C04": dict(
+        lean_props=["H4.Props.C04Chunk"],
+        engines=[
+            E("chunk", "e_chunk.c", model="chunk", quick=dict(cases=400), thorough=dict(cases=15000, seeds=4, chunk=100)),
+            # exhaustive: every chunk shape of every extent <= 4, <= 4x4, <= 3x3x2 (615 geometries) x nt 1,2,4; every aligned (pos,len) walk
+            E("chunk_exh", "e_chunk.c", model="chunk", quick=dict(cases=615, args=["exh"]), thorough=dict(cases=1845, seeds=1, args=["exh"], chunk=50)),
+        ],
+        trusted_base=["mcache.c page cache and the chunk table Vdata/TBBT: not modelled here (chunk store = map chunk number -> buffer); "
+                      "checked on the implementation by the shadow-array oracle under cache sizes 1..3, Hendaccess and reopen"],
+        assumptions=["no int32 overflow: prod(dim_length)*nt_size < 2^31 and prod(chunk_length)*nt_size < 2^31",
+                     "HCHUNK_DEF.chunk_size = prod(chunk_length); fill_val_len divides nt_size",
+                     "transfers start at a multiple of nt_size and end inside the element (outside: see REPORT, C misbehaves)"],
+    ),
     "C13": dict(
         lean_props=["H4.Props.C13Atom"],
         engines=[
